@@ -696,8 +696,9 @@ class Sample:
                 muts[mut].append((bin_quality(mq), bin_quality(q)))
                 prev_q = q
                 dump_arr.append(mut)
-                if start in self.phaseable:
-                    phase[start] = mut[1]
+                # The database anchors an insertion at the base it follows
+                if start - 1 in self.phaseable:
+                    phase[start - 1] = mut[1]
                 if self._indel_sites_eqs and mut in self._indel_sites_eqs:
                     self._indel_sites[self._indel_sites_eqs[mut]][1] += 1
                 s_start += size
